@@ -124,8 +124,8 @@ fn run_case_in(ctx: &Ctx, acc: &mut Acc, case: &Case, project: &mut Project) {
     if let Err(p) = catch(|| {
         let _ = project.normalize_basic();
     }) {
-        ctx.violation(format!("normalize panic {}", mcx::panic_site(&p)), case_json(), json!({"observed": format!("normalize_basic panicked: {p}"), "expected": "no panic", "raw": raw_text()}));
-        acc.outcome(&("panic", mcx::panic_site(&p)));
+        ctx.violation(format!("normalize panic {}", site(&p)), case_json(), json!({"observed": format!("normalize_basic panicked: {p}"), "expected": "no panic", "raw": raw_text()}));
+        acc.outcome(&("panic", site(&p)));
         return;
     }
     let mut classes: BTreeMap<String, Vec<String>> = BTreeMap::new();
@@ -159,15 +159,18 @@ fn run_case_in(ctx: &Ctx, acc: &mut Acc, case: &Case, project: &mut Project) {
         (g.node_count(), g.edge_count())
     });
     if let Err(p) = &cfg {
-        classes.entry(format!("cfg panic {}", mcx::panic_site(p))).or_default().push(p.clone());
+        classes.entry(format!("cfg panic {}", site(p))).or_default().push(p.clone());
     }
     let normalized = project.program.clone();
+    if ctx.replay_case().is_some() {
+        println!("--- raw program\n{}--- after normalize_basic\n{}--- get_program_cfg: {:?}", raw_text(), normalized.term, cfg);
+    }
     // ---- differential oracle: normalizing the normalized program changes nothing
     acc.transitions += 1;
     match catch(|| {
         let _ = project.normalize_basic();
     }) {
-        Err(p) => classes.entry(format!("normalize-twice panic {}", mcx::panic_site(&p))).or_default().push(p),
+        Err(p) => classes.entry(format!("normalize-twice panic {}", site(&p))).or_default().push(p),
         Ok(()) => {
             if project.program != normalized {
                 classes.entry("normalize not-idempotent".into()).or_default().push(format!("second application yields:\n{}", project.program.term));
@@ -257,17 +260,16 @@ fn main() {
     let full = 99usize;
     // (shape, max weight of the programs run bare, ... combined with every single irregularity,
     //  ... combined with every pair of irregularities)
+    let small_pairs = if ctx.thorough() { full } else { 2 };
     let mut parts: Vec<(Vec<usize>, usize, Option<usize>, Option<usize>)> = vec![
         (vec![1], full, Some(full), Some(full)),
-        (vec![2], full, Some(full), Some(2)),
+        (vec![2], full, Some(full), Some(small_pairs)),
         (vec![1, 0], full, Some(full), Some(full)),
-        (vec![1, 1], full, Some(full), Some(2)),
-        (vec![2, 0], full, Some(full), Some(2)),
+        (vec![1, 1], full, Some(full), Some(small_pairs)),
+        (vec![2, 0], full, Some(full), Some(small_pairs)),
     ];
     if ctx.thorough() {
         parts.extend([
-            (vec![2], full, None, Some(full)),
-            (vec![1, 1], full, None, Some(full)),
             (vec![2, 1], full, Some(4), Some(2)),
             (vec![1, 2], full, Some(4), Some(2)),
             (vec![2, 2], 6, Some(3), Some(1)),
